@@ -405,3 +405,91 @@ func structOverwrite(sync bool, lead byte) sampleFlagsT {
 	}
 	return f
 }
+
+// L-NARROWSHIFT: the two top bits of id are gone before the widening.
+type loudness struct {
+	DownmixID uint8
+	DRCSetID  uint8
+}
+
+func packWrong(l loudness) uint16 {
+	return uint16(l.DownmixID<<6) | uint16(0x3f&l.DRCSetID)
+}
+
+// L-DEADAPPEND: the slice built is never assigned back.
+type childList struct {
+	Children []int
+}
+
+func insertLost(c *childList, at, v int) {
+	children := make([]int, 0, len(c.Children)+1)
+	children = append(children, c.Children[:at]...)
+	children = append(children, v)
+	children = append(children, c.Children[at:]...)
+}
+
+// G7-IDX: the last chunk is refused.
+type offsetTable struct {
+	ChunkOffset []uint64
+}
+
+func (b *offsetTable) getOffsetWrong(chunkNr int) (uint64, error) {
+	if chunkNr <= 0 || chunkNr >= len(b.ChunkOffset) {
+		return 0, io.ErrUnexpectedEOF
+	}
+	return b.ChunkOffset[chunkNr-1], nil
+}
+
+// UseOffsetTable keeps the method reachable.
+func UseOffsetTable(b *offsetTable) (uint64, error) {
+	return b.getOffsetWrong(1)
+}
+
+// L-BOUNDARY: the value 2^32 itself is kept on the 32-bit side.
+type timeBox struct {
+	Version byte
+	Time    uint64
+}
+
+func (t *timeBox) setTimeWrong(v uint64) {
+	if v > 1<<32 {
+		t.Version = 1
+	} else {
+		t.Version = 0
+	}
+	t.Time = v
+}
+
+// UseTimeBox keeps the method reachable.
+func UseTimeBox(t *timeBox, v uint64) { t.setTimeWrong(v) }
+
+// L-BITOVERLAP: two accessors of a packed byte read the same bits.
+type packedEntry uint8
+
+func (e packedEntry) Leading() uint8    { return (uint8(e) >> 6) & 3 }
+func (e packedEntry) DependsOn() uint8  { return (uint8(e) >> 4) & 3 }
+func (e packedEntry) DependedOn() uint8 { return (uint8(e) >> 4) & 3 }
+func (e packedEntry) Redundancy() uint8 { return uint8(e) & 3 }
+
+// L-SHAREDCHILD: one child for every parent.
+type node struct {
+	Children []*node
+}
+
+func (n *node) AddChild(c *node) { n.Children = append(n.Children, c) }
+
+func shareWrong(ids []int) []*node {
+	var out []*node
+	leaf := &node{}
+	for range ids {
+		parent := &node{}
+		parent.AddChild(leaf)
+		out = append(out, parent)
+	}
+	return out
+}
+
+// UseNodes keeps the functions reachable.
+func UseNodes(ids []int, e packedEntry) ([]*node, uint8) {
+	return shareWrong(ids), e.Leading() + e.DependsOn() + e.DependedOn() + e.Redundancy()
+}
